@@ -141,9 +141,9 @@ PROPS = {
         tags="verif,avfs_setostype",
         parts=[dict(name="path")],
         trusted=["modelled, not verified: strings.EqualFold as ASCII case folding (generator alphabet has no other cased runes); utf8.DecodeRuneInString re-implemented in Lean and compared on every run",
-                 "oracle: the toolchain's path/filepath on the Linux host (Linux); for Windows there is no oracle in this run: impl ≟ model only"],
+                 "oracle: the toolchain's path/filepath on the Linux host (Linux); for Windows the toolchain's own Windows implementation (GOROOT/src/internal/filepathlite/path_windows.go, path/filepath/{path,path_windows,match}.go) retargeted mechanically on every run by harness/cmd/winx (declarations copied verbatim; runtime.GOOS, os.PathSeparator, os.IsPathSeparator and internal/* helpers rewritten; every loop given an iteration budget because the toolchain's Windows Rel does not terminate on some UNC inputs); Abs on Windows is compared with its documented meaning (Clean / Join with the current directory), syscall.FullPath having no counterpart"],
         assumptions=["string lengths far below 2^31", "SplitAbs is only required to work on absolute paths (its documented precondition)"],
-        not_yet_proved=["clean_eq_spec (in progress)", "match_eq_spec", "rel_join", "Windows: theorems beyond length/inverse laws (executable model + correspondence only)"],
+        not_yet_proved=["match_eq_spec", "rel_join", "Windows: theorems beyond length/inverse laws (executable model + correspondence only)"],
     ),
     "C15": dict(
         props_files=["Avfs/Props/C15.lean"],
